@@ -31,5 +31,6 @@ import Blots.Drv.Eval
 import Blots.Drv.NumText
 import Blots.Drv.Units
 import Blots.Drv.Json
+import Blots.Drv.JsonText
 import Blots.Drv.Ident
 import Blots.Drv.ExprPeg
